@@ -262,6 +262,12 @@ def match_known(prop, viol, findings):
                 ok = ok and viol.get('cfg', {}).get(k[4:]) == v
             elif k == 'label_args':
                 ok = ok and list(viol['label'][1:1 + len(v)]) == list(v)
+            elif k == 'when':
+                # a python expression over the label tuple, the event name and the scenario configuration
+                try:
+                    ok = ok and bool(eval(v, {'__builtins__': {}}, dict(label=viol['label'], ev=viol.get('ev'), cfg=viol.get('cfg', {}))))
+                except Exception:
+                    ok = False
             else:
                 ok = ok and viol.get(k) == v
         if ok:
